@@ -92,7 +92,7 @@ pub fn sniff_case(data: &[u8]) -> Option<SniffCase> {
         }
         _ => StreamSpec::Raw(u.bytes(u.len().min(80)).ok()?.to_vec()),
     };
-    Some(SniffCase { stream, cuts, pendings, tail: (flags >> 1) as u16 % 40, eof_now: flags & 1 != 0 })
+    Some(SniffCase { stream, cuts, pendings, tail: (flags >> 1) as u16 % 40, eof_now: flags & 1 != 0, error_at: None })
 }
 
 /// Bytes -> adapter program (engine iomodel, C18).
